@@ -20,8 +20,18 @@ class Conn(object):
         self.stanzas = []          # decoded client stanzas
         self.raw = bytearray()     # every byte read from the socket
         self.sent_raw = bytearray()  # every byte written to the socket
+        self.tail_on_eof = None      # bytes to write when the client half-closes (the rest of a frame that was on its way)
         self.seen = 0
         self.lock = threading.Lock()
+
+    def send_partial_stanza(self, tree, k):
+        """Writes only the first k bytes of the stanza's frame now; the rest goes out when the client half-closes."""
+        with self.lock:
+            b = self.srv.encrypt(refcodec.encode_canonical(tree))
+            k = max(1, min(len(b) - 1, k))
+            self.sent_raw += b[:k]
+            self.tail_on_eof = b[k:]
+            self.sock.sendall(b[:k])
 
     def send_stanza(self, tree):
         with self.lock:
@@ -84,6 +94,12 @@ class LoopServer(threading.Thread):
                 # the client half-closed (or closed): a real server closes its side as well
                 c.closed_by_peer = True
                 try:
+                    if c.tail_on_eof:
+                        try:
+                            c.sock.sendall(c.tail_on_eof)     # what was already on its way when the client hung up
+                            time.sleep(0.02)
+                        except OSError:
+                            pass
                     c.sock.close()
                 except OSError:
                     pass
